@@ -44,6 +44,7 @@ def check(ctx, tier):
     from .. import hazards as _hz, scopes as _sc
     _hz.generic(ctx, tk, "C05.z", _sc.scope(tk, "C05", depth=1))
     _hz.h19_raw_identity_store(ctx, tk, "C05.z/H19", [ctx.func("raggedarray.RaggedArray._reduce")])
+    _hz.h21_default_dtype_result(ctx, tk, "C05.z/H21", [ctx.func("raggedarray.RaggedArray._reduce")])
     return {}
 
 
@@ -153,7 +154,8 @@ def reduce_hazards(ctx, tk):
                     for t, truth, _ in facts_at(fa, n)):
                 fv = dict(tm.a[2]).get("fill_value", tm.a[1][1] if len(tm.a[1]) > 1 else None)
                 nm = np_call(tm, {"full", "zeros", "ones", "empty"})
-                ok = True if (nm == "full" and fv is not None and _is_identity(fv)) else (False if nm in ("zeros", "ones", "empty") or (fv is not None and fv.k == "const") else None)
+                own_answer = fv is not None and fv.k == "call" and fv.a[0].k == "attr" and fv.a[0].a[1] == "reduce" and fv.a[0].a[0].k == "param"
+                ok = True if (nm == "full" and fv is not None and (_is_identity(fv) or own_answer)) else (False if nm in ("zeros", "ones", "empty") or (fv is not None and fv.k == "const") else None)
                 ctx.decide("C05.a", f, "an array without cells reduces to the ufunc's identity in every row", ok,
                            "all-empty result is built with np.%s: wrong for identities other than that constant" % nm, node=n.ast, key="all-empty", engine="E1")
 
